@@ -49,7 +49,10 @@ fn gen_inputs() -> Vec<Vec<Gm>> {
     // ECU2: 5 msgs interleaved in time with ECU1 boot 1
     for i in 0..5u64 {
         let (a, c) = ids[(i as usize + 3) % 4];
-        f1.push(Gm { file: 1, ecu: *b"ECU2", apid: a, ctid: c, recv_us: base + i * s + s / 2 + 3, ts_dms: 500_000 + i as u32 * 10_000, mcnt: 20 + i as u8, text: format!("ecu2 msg {i}") });
+        // message 1 is delivered 0.9 s late (reception 2.4 s, timestamp as if sent at 1.5 s): in --sort order it moves
+        // ahead of three messages with smaller indices, so index windows and time order disagree
+        let late = if i == 1 { 900_000 } else { 0 };
+        f1.push(Gm { file: 1, ecu: *b"ECU2", apid: a, ctid: c, recv_us: base + i * s + s / 2 + 3 + late, ts_dms: 500_000 + i as u32 * 10_000, mcnt: 20 + i as u8, text: format!("ecu2 msg {i}") });
     }
     // f3: a file that carries BOTH ECUs (e.g. ECU2 tunnelled via ECU1), interleaved in time with f0/f1:
     // files with nested but unequal ECU sets must still be treated as separate parallel streams
